@@ -28,9 +28,11 @@ var c08Reqs = []c08Req{
 	{"PUT", "/things/k", "update", `{"name":"n"}`, "update", 204, false},
 	{"DELETE", "/things/k", "delete", "", "delete", 204, false},
 	{"POST", "/things?action=ping", "action", `{"msg":"m"}`, "action:ping", 200, false},
-	{"GET", "/things?q=search&kw=x&lim=1", "finder", "", "finder:search", 200, false},
-	{"GET", "/things?ids=List(a)", "batch_get", "", "batch_get", 200, false},
+	{"GET", "/things?q=search&kw=x&lim=1", "finder", "", "finder:search", 200, true},
+	{"GET", "/things?ids=List(a)", "batch_get", "", "batch_get", 200, true},
 	{"POST", "/things/k", "partial_update", `{"patch":{"$set":{"name":"n"}}}`, "partial_update", 204, false},
+	{"GET", "/things?q=withMeta&c=RED", "finder", "", "finder:withMeta", 200, true},
+	{"GET", "/things", "get_all", "", "get_all", 200, true},
 }
 
 func c08OptString(n int) *string {
@@ -96,7 +98,8 @@ func (w *c08Wrap) Unwrap() error { return w.inner }
 
 // Harness_C08_Outcome: request kind r (index into c08Reqs), outcome o:
 // 0 success, 1 success with overridden status, 2 Rest.li error response with
-// symbolic fields, 3 plain error, 4 panic, 5 typed-nil entity without error,
+// symbolic fields, 3 plain error, 4 panic, 5 nil result pointer without error
+// (entity, finder elements, batch or get_all result),
 // 6 an ordinary error that wraps a Rest.li error response (it is "any other
 // error": failure status, its message, error header).
 func Harness_C08_Outcome(r, o, n int) {
@@ -133,6 +136,7 @@ func Harness_C08_Outcome(r, o, n int) {
 		before = c08CopyErr(held)
 	case 5:
 		m.item = nil
+		m.nilResult = true
 	}
 	m.outcomeCtx = func(ctx *restli.RequestContext, method string) error {
 		if method != rq.mockMethod {
